@@ -120,6 +120,19 @@ CHECKS = {
          'the unit list of every input kind is covered across the campaign (reported), time units of dt / T / continuation are re-chosen per run.'),
    ref='DESIGN.md section 4 C07, 2.3',
    note=TB + '; pairs containing a decision within rounding distance of its threshold (reported by the trace spec as U| lines) are counted as unjudged.'),
+
+ 'C04': dict(
+   technique='TLA+ closed form (Closed.tla: exponential by a degree-40 Taylor polynomial in exact rationals) - the solver scheme model-checked against it as a state machine (MC_Closed) + TLC validation of real trajectories at four step sizes (Trace_Closed.tla)',
+   text=('MC_Closed runs the speed-then-position scheme at dt and dt/2 side by side as a TLC state machine over a family of linear instances and checks, at every instant, the bound proportional to dt and, at the final time, the halving ratio - '
+         'a checked statement about the design. The real solver is then run on seeded random linear instances at k dt = 0.2, 0.1, 0.05, 0.025 over four time constants and TLC evaluates the same bounds and ratios on the recorded floats in exact arithmetic.'),
+   ref='DESIGN.md section 4 C04',
+   note=TB + '; the enumerated family and step sizes are checked, not the limit dt -> 0; constants C = k|w0-winf|/2 and C\' = 3|w0-winf|/2.'),
+ 'C18': dict(
+   technique='TLA+ table semantics (Snapshot.tla: requested columns, linear interpolation, unit conversion via Units.tla, NaN exactly for unrecorded variables; CSV export) + TLC validation of real snapshot tables and re-read CSV files (Trace_Snapshot.tla)',
+   text=('Real simulated powertrains are snapshot at recorded instants, between them and at both ends (target time in any unit) for no selection, every singleton, every complement, pairs and random subsets (thorough: every non-empty subset) '
+         'with output units from every unit list; exported CSVs are re-read. TLC checks the column set exactly, every cell and every CSV value against the recorded history.'),
+   ref='DESIGN.md section 4 C18',
+   note=TB + '; only variables that some element records are requested.'),
 }
 
 ALL = ['C%02d' % i for i in range(1, 21)]
